@@ -9,6 +9,7 @@
 package engine
 
 import (
+	"context"
 	"encoding/json"
 	"fmt"
 	"os"
@@ -274,6 +275,60 @@ func hangLimit(sub *Sub) time.Duration {
 	return 240 * time.Second
 }
 
+// engineStart carries a monotonic clock reading: the watchdog measures elapsed time with time.Since(engineStart),
+// which a step of the wall clock (NTP, a virtual machine paused for a snapshot and resumed) does not affect.
+var engineStart = time.Now()
+
+func monoNanos() int64 { return int64(time.Since(engineStart)) }
+
+// ConfirmHang is the two-stage confirmation used by the checks for which "does not return" is a verdict
+// (C09, C20): a case that is merely slow - machine under load, process paused - must never be reported.
+// Stage 1: the case alone is replayed in a fresh process with the same limit; if that run does not come back
+// either, the hang is confirmed. Stage 2 (the replay alone passes: the hang may depend on what ran before):
+// the case in this process is given until three times the limit on the monotonic clock; if it is still in
+// flight then, the hang is confirmed as history-dependent. stillInFlight reports whether the case is still running.
+func ConfirmHang(prop string, sub *Sub, caseJSON string, limit time.Duration) (confirmed bool, how string) {
+	start := monoNanos()
+	tier, stillInFlight := runTier, StillInFlight
+	if exe, err := os.Executable(); err == nil && os.Getenv("VERIF_CONFIRM") == "" {
+		dir := filepath.Join(os.TempDir(), fmt.Sprintf("verif-hang-%d", os.Getpid()))
+		os.MkdirAll(dir, 0o755)
+		defer os.RemoveAll(dir)
+		file := filepath.Join(dir, "case.json")
+		os.WriteFile(file, []byte(fmt.Sprintf("{\"property\":%q,\"sub\":%q,\"class\":\"does-not-terminate\",\"case\":%s}", prop, sub.Name, caseJSON)), 0o644)
+		cctx, cancel := context.WithTimeout(context.Background(), limit+30*time.Second)
+		cmd := exec.CommandContext(cctx, exe, prop, tier, "--replay", file)
+		cmd.Env = append(os.Environ(), "VERIF_CONFIRM=1", "VERIF_OUT_DIR="+dir)
+		err := cmd.Run()
+		timedOut := cctx.Err() != nil
+		cancel()
+		_ = err
+		if !stillInFlight() {
+			return false, ""
+		}
+		if timedOut {
+			return true, "the case alone, replayed in a fresh process, does not come back either"
+		}
+	}
+	if !stillInFlight() {
+		return false, ""
+	}
+	for monoNanos()-start < int64(2*limit) {
+		time.Sleep(time.Second)
+		if !stillInFlight() {
+			return false, ""
+		}
+	}
+	return true, "the case alone returns in a fresh process, but in this run it has not come back after three times the limit: it depends on the calls that preceded it"
+}
+
+// runTier is the tier of the current run (set by Main).
+var runTier = "quick"
+
+// StillInFlight is set by the watchdog for the duration of a HangHandler call: it tells whether the case the
+// handler was called for is still running.
+var StillInFlight = func() bool { return true }
+
 // HangHandler is called (from the watchdog goroutine) when a case does not come back. The default
 // reports a harness error and exits 2; a check whose property includes termination (C09) replaces it.
 var HangHandler = func(sub *Sub, caseJSON string, limit time.Duration) {
@@ -313,6 +368,7 @@ type subStats struct {
 
 // Main runs the check and returns the process exit status.
 func Main(chk *Check, tier string, seed int64, replayPath string) int {
+	runTier = tier
 	if replayPath != "" {
 		return replay(chk, tier, replayPath)
 	}
@@ -729,8 +785,24 @@ func replay(chk *Check, tier, path string) int {
 		}
 		ctx := newCtx(tier)
 		ctx.curCase = c
-		sub.Run(ctx, c)
 		fmt.Printf("replay %s/%s case=%s\n", chk.Property, sub.Name, string(rf.Case))
+		done := make(chan struct{})
+		go func() { defer close(done); sub.Run(ctx, c) }()
+		if os.Getenv("VERIF_CONFIRM") != "" {
+			<-done // (the parent decides how long to wait)
+		} else {
+			select {
+			case <-done:
+			case <-time.After(5 * hangLimit(sub)):
+				if rf.Class == "does-not-terminate" || rf.Class == "operations-wait-for-each-other" {
+					fmt.Printf("  finding class=%s: the case did not return within %s\n", rf.Class, 5*hangLimit(sub))
+					fmt.Printf("VIOLATION property=%s replay=%s\n", chk.Property, path)
+					return 1
+				}
+				fmt.Fprintf(os.Stderr, "harness error: the replayed case did not return within %s\n", 5*hangLimit(sub))
+				return 2
+			}
+		}
 		for k, v := range ctx.outcomes {
 			fmt.Printf("  outcome %s x%d\n", k, v)
 		}
@@ -797,9 +869,14 @@ func runSub(sub *Sub, tier string, deadline time.Time) (subStats, []any, map[str
 				return
 			case <-t.C:
 				for _, f := range fl {
-					if s := f.since.Load(); s != 0 && time.Since(time.Unix(0, s)) > limit {
+					if s := f.since.Load(); s != 0 && time.Duration(monoNanos()-s) > limit {
 						cb, _ := json.Marshal(f.cas.Load())
+						f, s := f, s
+						StillInFlight = func() bool { return f.since.Load() == s }
 						HangHandler(sub, string(cb), limit)
+						StillInFlight = func() bool { return true }
+						// (a handler that returns has decided that the case is slow, not hung: it gets a new lease)
+						f.since.CompareAndSwap(s, monoNanos())
 					}
 				}
 			}
@@ -810,7 +887,7 @@ func runSub(sub *Sub, tier string, deadline time.Time) (subStats, []any, map[str
 		ctx := newCtx(tier)
 		ctx.beat = func() {
 			if fl[w].since.Load() != 0 {
-				fl[w].since.Store(time.Now().UnixNano())
+				fl[w].since.Store(monoNanos())
 			}
 		}
 		ctxs[w] = ctx
@@ -820,7 +897,7 @@ func runSub(sub *Sub, tier string, deadline time.Time) (subStats, []any, map[str
 			for b := range ch {
 				for _, it := range b {
 					fl[w].cas.Store(it.c)
-					fl[w].since.Store(time.Now().UnixNano())
+					fl[w].since.Store(monoNanos())
 					func() {
 						defer fl[w].since.Store(0)
 						defer func() {
